@@ -188,6 +188,7 @@ package otr3
 //@   ensures [C15.verdict.other] (result == errReceivedMessageForOtherInstance) <==> (!((our > 0 && our < 256) || their < 256) && ((our != 0 && c.ourInstanceTag != our) || c.theirInstanceTag != their))
 //@   ensures [C15.verdict.nil] result == nil || result == errInvalidOTRMessage || result == errReceivedMessageForOtherInstance
 //@   ensures [C15.learn.valid,C06.itag.frame] c.theirInstanceTag != old(c.theirInstanceTag) ==> (result == nil && old(c.theirInstanceTag) == 0 && c.theirInstanceTag == their && their >= 256 && (our == 0 || our == c.ourInstanceTag))
+//@   ensures [C19.itag.noinject] result == nil ==> c.injections.messages === old(c.injections.messages)
 //@   ensures [C15.accept.bound] result == nil ==> (c.theirInstanceTag == their && their >= 256 && (our == 0 || our == c.ourInstanceTag))
 
 //@ func (otrV3).parseMessageHeader
@@ -257,6 +258,8 @@ package otr3
 //@   ensures [C14.recv.reject.noop,C06.frag.reject,C15.ignore.frag] result1 != nil ==> result0 == beforeCtx
 //@   ensures [C14.recv.table] result0 == beforeCtx || (result0.currentIndex == 1 && result0.currentLen >= 1) || (result0.currentIndex == beforeCtx.currentIndex + 1 && result0.currentLen == beforeCtx.currentLen && result0.currentIndex <= result0.currentLen && len(result0.frag) >= len(beforeCtx.frag)) || (result0.currentIndex == 0 && result0.currentLen == 0 && result0.frag === nil)
 //@   ensures [C14.recv.inv] beforeCtx.currentIndex <= beforeCtx.currentLen ==> result0.currentIndex <= result0.currentLen
+//@   ensures [C16.frag.sticky] old(c.version) != nil ==> c.version == old(c.version)
+//@   ensures [C19.frag.noinject] !(result0 == beforeCtx) ==> c.injections.messages === old(c.injections.messages)
 //@   ensures nonglobal(result0.frag)
 
 //@ func fragmentsFinished
